@@ -575,6 +575,60 @@ func (ex *Exec) specCall(st *State, e *ast.CallExpr) []*Val {
 				}
 			}
 			return one(&Val{T: tBool, Term: and(cs...)})
+		case "writesOnlySpare":
+			// writesOnlySpare(dst): the frame of an append-style function, stated
+			// over every slice memory: a cell that existed at entry has its entry
+			// value unless it lies in the spare capacity [len,cap) of dst as it
+			// was at entry.  (Fresh arrays may be written freely.)
+			ov := ex.oldView(st)
+			a0 := ex.alloc(ov)
+			d := ex.expr(ov, e.Args[0])
+			for _, p := range ov.pc {
+				st.assume(p)
+			}
+			dElem := types.Type(tByte)
+			if sl, ok := d.T.Underlying().(*types.Slice); ok {
+				dElem = sl.Elem()
+			}
+			dMem, _ := ex.memName(dElem)
+			var cs []*Term
+			var names []string
+			for k := range st.heaps {
+				names = append(names, k)
+			}
+			sort.Strings(names)
+			r, a := mk("r?", SInt), mk("a?", SInt)
+			for _, k := range names {
+				if !(strings.HasPrefix(k, "H$") || strings.HasPrefix(k, "Box$") || strings.HasPrefix(k, "Mem$")) {
+					continue
+				}
+				now := st.heaps[k]
+				old, ok := ov.heaps[k]
+				if !ok || old == now {
+					continue
+				}
+				if k == dMem {
+					lo := add(ex.sOff(d.Term), ex.sLen(d.Term))
+					hi := add(ex.sOff(d.Term), ex.sCap(d.Term))
+					inSpare := and(eq(r, ex.sRef(d.Term)), ge(a, lo), lt(a, hi))
+					cs = append(cs, forall([]*Term{r, a},
+						implies(and(gt(r, intLit(0)), lt(r, a0), not(inSpare)), eq(sel(sel(now, r), a), sel(sel(old, r), a))),
+						[]*Term{sel(sel(now, r), a)}))
+					continue
+				}
+				cs = append(cs, forall([]*Term{r}, implies(and(gt(r, intLit(0)), lt(r, a0)), eq(sel(now, r), sel(old, r)))))
+			}
+			var gnames []string
+			for k := range ex.globalWrites {
+				gnames = append(gnames, k)
+			}
+			sort.Strings(gnames)
+			for _, k := range gnames {
+				if old, ok := ov.heaps[k]; ok && st.heaps[k] != old {
+					cs = append(cs, eq(st.heaps[k], old))
+				}
+			}
+			return one(&Val{T: tBool, Term: and(cs...)})
 		case "prev":
 			// prev(e): e evaluated just before the statement this `after` hook follows
 			if ex.prevState == nil {
